@@ -6,8 +6,14 @@ import (
 	"strings"
 	"sync"
 
+	promclient "github.com/prometheus/client_golang/prometheus"
+	"github.com/prometheus/client_golang/prometheus/collectors"
 	"github.com/transparency-dev/witness/monitoring"
+	promadapter "github.com/transparency-dev/witness/monitoring/prometheus"
 )
+
+// PromPrefix is the prefix cmd/omniwitness gives its Prometheus metric factory.
+const PromPrefix = "omniwitness_"
 
 // RecFactory is a recording monitoring.MetricFactory.
 type RecFactory struct {
@@ -21,6 +27,9 @@ type RecCounter struct {
 	Name   string
 	Labels []string
 	vals   map[string]int
+	// prom is the same counter as the repository's Prometheus binding builds it (what an
+	// operator scrapes when -metrics_listen is set); every increment is forwarded to it.
+	prom monitoring.Counter
 }
 
 // Metrics is the process-wide recording factory; InstallMetrics registers it.
@@ -28,13 +37,20 @@ var Metrics = &RecFactory{counters: map[string]*RecCounter{}}
 
 // InstallMetrics installs the recording factory (first call in the process wins, as
 // monitoring.SetMetricFactory keeps the first factory only).
-func InstallMetrics() { monitoring.SetMetricFactory(Metrics) }
+func InstallMetrics() {
+	// The Go runtime and process collectors of the default registry are of no interest here
+	// and make every Gather slower.
+	promclient.Unregister(collectors.NewGoCollector())
+	promclient.Unregister(collectors.NewProcessCollector(collectors.ProcessCollectorOpts{}))
+	monitoring.SetMetricFactory(Metrics)
+}
 
 // NewCounter implements monitoring.MetricFactory.
 func (f *RecFactory) NewCounter(name, help string, labelNames ...string) monitoring.Counter {
 	f.mu.Lock()
 	defer f.mu.Unlock()
 	c := &RecCounter{f: f, Name: name, Labels: labelNames, vals: map[string]int{}}
+	c.prom = promadapter.MetricFactory{Prefix: PromPrefix}.NewCounter(name, help, labelNames...)
 	f.counters[name] = c
 	return c
 }
@@ -44,6 +60,39 @@ func (c *RecCounter) Inc(labelVals ...string) {
 	c.f.mu.Lock()
 	c.vals[strings.Join(labelVals, "|")]++
 	c.f.mu.Unlock()
+	c.prom.Inc(labelVals...)
+}
+
+// PromSnapshot is Snapshot as an operator sees it: the values the default Prometheus
+// registry reports for the counters the repository's own binding (monitoring/prometheus)
+// registered, keyed like Snapshot ("counter{label values}" without the binary's prefix;
+// label values in the order of the label names, which is the declaration order for the
+// one-label witness counters).
+func PromSnapshot(prefix string) (map[string]int, error) {
+	mfs, err := promclient.DefaultGatherer.Gather()
+	if err != nil {
+		return nil, err
+	}
+	out := map[string]int{}
+	for _, mf := range mfs {
+		n := mf.GetName()
+		if !strings.HasPrefix(n, PromPrefix+prefix) {
+			continue
+		}
+		n = strings.TrimPrefix(n, PromPrefix)
+		for _, m := range mf.GetMetric() {
+			var vals []string
+			for _, lp := range m.GetLabel() {
+				vals = append(vals, lp.GetValue())
+			}
+			v := m.GetCounter().GetValue()
+			if v != float64(int(v)) {
+				out[n+"{"+strings.Join(vals, "|")+"}#fractional"] = 1
+			}
+			out[n+"{"+strings.Join(vals, "|")+"}"] = int(v)
+		}
+	}
+	return out, nil
 }
 
 // Snapshot returns "counter{labels}" -> value for every counter whose name has the
